@@ -3,6 +3,7 @@ CONSTANTS
   Depth = 0
   Family = "core"
   RichBudget = 0
+  BigLen = 0
   SliceGrid <- GridS
 SPECIFICATION TSpec
 INVARIANT Judge
